@@ -354,7 +354,7 @@ func runProtocol(kc *kernelCtx, blocks []*Block, only string, want map[string]bo
 		}
 	}
 	pc.curExtra = nil
-	if on("C12") || on("C16") || on("C20") || on("C18") || on("C19") || on("C04") || on("C05") {
+	if on("C12") || on("C16") || on("C20") || on("C18") || on("C19") || on("C04") || on("C05") || on("C15") {
 		pc.p3Lazy(sites, only)
 	}
 	if on("C07") {
